@@ -9,7 +9,7 @@
    enabled (`async_send_recv_exclusive`). *)
 From stdpp Require Import gmap strings sorting.
 Require Import Grits.Base Grits.ModeDefs Grits.Modes Grits.STypes Grits.Forms Grits.Subst Grits.TcDeps Grits.Expand.
-Require Import Grits.Runtime Grits.proofs.RuntimeFacts.
+Require Import Grits.Runtime Grits.RuntimeFootprint Grits.proofs.RuntimeFacts.
 
 (* ------------------------------------------------------------------ equivalence of configurations *)
 Definition cfg_equiv (c d : config) : Prop :=
